@@ -105,7 +105,23 @@ def build_node(e) -> Node:
     return Node(op, build_node(e[1]), build_node(e[2]))
 
 
-def build_constraint(c: dict) -> Constraint:
+def build_node_shared(e, memo) -> Node:
+    """As build_node, but structurally equal operator sub-trees become ONE Node object (a DAG) - what the core's own
+    to_cnf produces when it distributes ('(A & B) | !C' -> '(A | !C) & (B | !C)' with a single '!C' node)."""
+    import json as _json
+    if e[0] in LEAF_TAGS:
+        return Node(leaf_value(e))
+    key = _json.dumps(e, sort_keys=True)
+    if key not in memo:
+        op = OPS[e[0]]
+        memo[key] = Node(op, build_node_shared(e[1], memo)) if len(e) == 2 else Node(
+            op, build_node_shared(e[1], memo), build_node_shared(e[2], memo))
+    return memo[key]
+
+
+def build_constraint(c: dict, share=False) -> Constraint:
+    if share:
+        return Constraint(c["name"], AST(build_node_shared(c["ast"], {})))
     return Constraint(c["name"], AST(build_node(c["ast"])))
 
 
@@ -149,7 +165,7 @@ def build_feature(f: dict) -> Feature:
 
 def build(model: dict) -> FeatureModel:
     root = build_feature(model["root"])
-    return FeatureModel(root, [build_constraint(c) for c in model.get("ctcs", [])])
+    return FeatureModel(root, [build_constraint(c, share=bool(model.get("share_nodes"))) for c in model.get("ctcs", [])])
 
 
 def morph(fm: FeatureModel, new_model: dict) -> FeatureModel:
